@@ -348,7 +348,7 @@ impl Prop for C18 {
         true
     }
     fn cases(tier: Tier) -> u64 {
-        tier.pick(4000, 100_000)
+        tier.pick(20_000, 300_000)
     }
     fn strategy(_tier: Tier) -> BoxedStrategy<Case> {
         let text = (
@@ -410,10 +410,10 @@ impl Prop for C18 {
                 }
             }
         }
-        let maxlen = tier.pick(4u8, 6u8);
+        let maxlen = tier.pick(5u8, 7u8);
         for len in 0..=maxlen {
             for a in 0..=len {
-                v.push(Case::ViewGrid { len, a, max_ops: if len <= 4 { 3 } else { 2 } });
+                v.push(Case::ViewGrid { len, a, max_ops: if len <= 5 { 3 } else { 2 } });
             }
         }
         v
